@@ -253,7 +253,7 @@ def rule_fixpoint(ctx):
     oks = False
     if sph:
         b = [norm(s).replace(" ", "") for s in sph[0].body]
-        oks = b == ["h,lat,lon=cart2geocentric(x,y,z)", "h-=ellipsoid[0]"]
+        oks = b[:2] == ["h,lat,lon=cart2geocentric(x,y,z)", "h-=ellipsoid[0]"] and b[2:] in ([], ["return(h,lat,lon)"], ["returnh,lat,lon"])
     ctx.ob("cart2geodetic.spherical", oks, "%s" % ([norm(s) for s in sph[0].body] if sph else None), "for e = 0: (r - a, lat, lon) from cart2geocentric", node=sph[0] if sph else f.node, func=f)
 
 
